@@ -169,6 +169,9 @@ def install(k, env):
                "filament_length_multi"):
         setattr(gc.GCode, nm, [0])
     k.trace_files |= {pc.__file__, dev.__file__, pw.__file__}
+    if k.policy == "hot":
+        from .kernel import hot_lines
+        k.hot = hot_lines(k.trace_files)
     _arm_tripwires(k)
 
 
